@@ -1,0 +1,42 @@
+//go:build verif
+
+package standard
+
+import (
+	"fmt"
+	"strings"
+
+	"github.com/cloudwego/hertz/pkg/network"
+)
+
+// DumpInputForVerif renders the input side of a Conn: length, maxSize, position of the read
+// node, whether an error is stored, and capacity:malloc:off:readOnly of every node from head to
+// write. Verification hook (build tag verif): read-only.
+func DumpInputForVerif(nc network.Conn) string {
+	c, ok := nc.(*Conn)
+	if !ok {
+		return "not a standard.Conn"
+	}
+	var nodes []string
+	r := -1
+	i := 0
+	for n := c.inputBuffer.head; n != nil; n = n.next {
+		if n == c.inputBuffer.read {
+			r = i
+		}
+		ro := 0
+		if n.readOnly {
+			ro = 1
+		}
+		nodes = append(nodes, fmt.Sprintf("%d:%d:%d:%d", cap(n.buf), n.malloc, n.off, ro))
+		if n == c.inputBuffer.write {
+			break
+		}
+		i++
+	}
+	e := 0
+	if c.err != nil {
+		e = 1
+	}
+	return fmt.Sprintf("len=%d max=%d r=%d err=%d %s", c.inputBuffer.len, c.maxSize, r, e, strings.Join(nodes, ","))
+}
